@@ -4,6 +4,7 @@
 //! line `#` ends a case), runs each case against the real component through the cfg-guarded
 //! hooks in quinn-proto and prints one observation line per op followed by `#`.
 //! A panic inside a case is an outcome: the case prints `PANIC <message>` then `#`.
+mod asyncsim;
 mod sim;
 use std::io::{self, BufRead, Write};
 use std::panic;
@@ -26,6 +27,7 @@ fn run_comp(name: &str, mode: u8) {
                 match mode {
                     1 => quinn_udp::verif_hooks::run(&name2, &ops2),
                     2 => Some(sim::run_case(&ops2)),
+                    3 => Some(asyncsim::run_case(&ops2)),
                     _ => quinn_proto::verif_hooks::run(&name2, &ops2),
                 }
             });
@@ -64,6 +66,7 @@ fn main() {
         Some("comp") => run_comp(&args[2], 0),
         Some("udp") => run_comp(&args[2], 1),
         Some("sim") => run_comp(&args[2], 2),
+        Some("async") => run_comp(&args[2], 3),
         Some("gencert") => {
             // one-off: writes an Ed25519 self-signed certificate (deterministic signature sizes)
             let dir = &args[2];
